@@ -205,7 +205,8 @@ def emit_spec(pack, render_kw=None, tables_name="vf_tables.h", driver="vf_driver
             opts.remove("noyyread")
     L.append("%option " + " ".join(opts))
     L.append('%%option pre-action="%s"' % (PRE_ACTION_C99 if api == "C99" else PRE_ACTION))
-    L.append('%%option user-init="%s"' % ("yybegin(vf_cur_sc, yyscanner);" if api == "C99" else "yybegin(vf_cur_sc);"))
+    if not getattr(pack, "no_user_init", False):
+        L.append('%%option user-init="%s"' % ("yybegin(vf_cur_sc, yyscanner);" if api == "C99" else "yybegin(vf_cur_sc);"))
     L.append("%{")
     L.append('#include "vf_pre.h"')
     L.append("static int vf_cur_sc;")
@@ -227,10 +228,22 @@ def emit_spec(pack, render_kw=None, tables_name="vf_tables.h", driver="vf_driver
         elif r.scs is not None:
             pre = "<" + ",".join(r.scs) + ">"
         act = "{ vf_body(); }" if r.action.strip() == "{ }" else r.action
-        if r.eof:
-            L.append("%s<<EOF>> %s" % (pre, act))
+        body = "<<EOF>> %s" % act if r.eof else "%s %s" % (r.pattern_text(**render_kw), act)
+        style = getattr(r, "scope_style", "prefix")
+        if style == "scope" and pre:
+            L.append(pre + "{")
+            pack.line2group[sum(x.count("\n") + 1 for x in L) + 1] = gi
+            L.append(body)
+            L.append("}")
+        elif style == "nested" and r.scs not in (None, "*") and len(r.scs) > 1:
+            for name in r.scs:
+                L.append("<%s>{" % name)
+            pack.line2group[sum(x.count("\n") + 1 for x in L) + 1] = gi
+            L.append(body)
+            for name in r.scs:
+                L.append("}")
         else:
-            L.append("%s%s %s" % (pre, r.pattern_text(**render_kw), act))
+            L.append(pre + body)
     L.append("%%")
     L.append('#include "%s"' % tables_name)
     L.append('#include "refscan.h"')
@@ -274,6 +287,7 @@ def run_pack(flex, pack, workdir, name="s", flex_args=(), api="NR", defs=(), kno
         f.write(tables)
     pack.cdefs = list(defs)
     pack.ops_per_action = (knobs or {}).get("VF_OPS_PER_ACTION", 1)
+    pack.no_user_init = "VF_BEGIN_OUTSIDE" in (knobs or {})
     spec = emit_spec(pack, render_kw, tables_name=tn, api=api)
     lpath = os.path.join(workdir, name + ".l")
     with open(lpath, "w") as f:
@@ -381,7 +395,11 @@ def run_groups_job(job):
                 continue
             # confirm alone
             wd2 = os.path.join(wd, "g%d" % gi)
-            single = Pack([job["groups"][gi]], job.get("options", ()), job.get("defs", ()), job.get("prologue", ""))
+            alone = [job["groups"][gi]]
+            if not alone[0].rules:            # a group that only enters another group's condition: keep its owner
+                owner = [g for g in job["groups"] if alone[0].enter in [c[0] for c in g.conds] or (g.rules and alone[0].enter == "INITIAL")]
+                alone = (owner[:1] or job["groups"][:1]) + alone
+            single = Pack(alone, job.get("options", ()), job.get("defs", ()), job.get("prologue", ""))
             try:
                 r2 = run_pack(flex, single, wd2, **kw)
                 v["confirmed"] = bool(r2["viols"]) or r2["summary"] is None
